@@ -83,52 +83,56 @@ def DTerm.inner : DTerm → Inner
   | .np a => .np a
   | _ => .np { id := 0, g := .m, n := .s, pro := false }
 
+/-- `Dependent.passivate`, the dependents: the object becomes the subject, the subject an agent « par … » at the end;
+    returns person, number, gender and identity of the new subject -/
+def passivateDepObj (deps : List Dep) : Except Crash (Option (Nat × Nb × Gd × Int) × List Dep) :=
+  let si := firstIdx (fun (d : Dep) => d.rel = .subj) deps
+  let oi := firstIdx (fun (d : Dep) => d.rel = .comp && d.t.isNorPro) deps
+  let parDep (sd : Dep) : Dep := { rel := .comp, t := .pp par (depPassiveSubject sd.t).inner }
+  match oi with
+  | some i =>
+    match deps[i]? with
+    | some o =>
+      let ot : DTerm := match o.t with
+        | .pro p => .pro (getTonicPro p (some .nom))
+        | t => t
+      let png : Nat × Nb × Gd := match ot with
+        | .pro p => (p.pe, p.n, p.g)
+        | .np a => (3, a.n, a.g)
+        | _ => (3, .s, .m)
+      let l1 := deps.set i { o with rel := .subj, t := ot }
+      let l2 := match si with
+        | some j => (match l1[j]? with
+          | some sd => l1.eraseIdx j ++ [parDep sd]
+          | none => l1)
+        | none => l1
+      -- `self.terminal.peng = obj.peng`: a dependent built on a preposition has no `peng`
+      if o.nopeng then throw .attributeError
+      else pure (some (png.1, png.2.1, png.2.2, o.pid), l2)
+    | none => pure (none, deps)
+  | none =>
+    match si with
+    | some j =>
+      match deps[j]? with
+      | some sd =>
+        let ns := lexPro luiStr .nom
+        pure (some (ns.pe, ns.n, ns.g, -2), deps.eraseIdx j ++ [{ rel := .pre, t := .pro ns }, parDep sd])
+      | none => pure (none, deps)
+    | none => pure (none, deps)
+
 /-- `Dependent.passivate` + `DependentFr.passive_agree_auxiliary` -/
 def passivateDep (v : VT) (deps : List Dep) : Except Crash (VT × List Dep) := do
   let etreLex ← auxLex etre
   let avoirLex ← auxLex avoir
-  let si := firstIdx (fun (d : Dep) => d.rel = .subj) deps
-  let oi := firstIdx (fun (d : Dep) => d.rel = .comp && d.t.isNorPro) deps
-  let parDep (sd : Dep) : Dep := { rel := .comp, t := .pp par (depPassiveSubject sd.t).inner }
-  let (obj, deps1) : Option (Nat × Nb × Gd × Int) × List Dep ←
-    match oi with
-    | some i =>
-      match deps[i]? with
-      | some o =>
-        let ot : DTerm := match o.t with
-          | .pro p => .pro (getTonicPro p (some .nom))
-          | t => t
-        let png : Nat × Nb × Gd := match ot with
-          | .pro p => (p.pe, p.n, p.g)
-          | .np a => (3, a.n, a.g)
-          | _ => (3, .s, .m)
-        let l1 := deps.set i { o with rel := .subj, t := ot }
-        let l2 := match si with
-          | some j => (match l1[j]? with
-            | some sd => l1.eraseIdx j ++ [parDep sd]
-            | none => l1)
-          | none => l1
-        -- `self.terminal.peng = obj.peng`: a dependent built on a preposition has no `peng`
-        if o.nopeng then throw .attributeError
-        pure (some (png.1, png.2.1, png.2.2, o.pid), l2)
-      | none => pure (none, deps)
-    | none =>
-      match si with
-      | some j =>
-        match deps[j]? with
-        | some sd =>
-          let ns := lexPro luiStr .nom
-          pure (some (ns.pe, ns.n, ns.g, -2), deps.eraseIdx j ++ [{ rel := .pre, t := .pro ns }, parDep sd])
-        | none => pure (none, deps)
-      | none => pure (none, deps)
+  let r ← passivateDepObj deps
   let v1 := v.setLemma (if v.lex.lemma = etre then avoirLex else etreLex)
   -- `if self.getProp("t") == "ip": self.t("s")` sets the Dependent's props; the terminal's own props["t"] still wins
   let pp0 : VT := mkV v.lex .pp
-  let (v2, pp) : VT × VT := match obj with
+  let vv : VT × VT := match r.1 with
     | some (pe, n, g, pid) => ({ v1 with pe := pe, n := n, g := g, pid := pid }, { pp0 with pe := pe, n := n, g := g, shared := true })
     | none => (v1, pp0)
-  let ci := (firstIdx (fun (d : Dep) => d.rel = .comp || d.rel = .mod) deps1).getD 0
-  pure (v2, pyInsert ci { rel := .post, t := .v pp } deps1)
+  let ci := (firstIdx (fun (d : Dep) => d.rel = .comp || d.rel = .mod) r.2).getD 0
+  pure (vv.1, pyInsert ci { rel := .post, t := .v vv.2 } r.2)
 
 /-- `DependentFr.move_object(int_)` -/
 def moveObjectDep (int : Str) (v : VT) (deps : List Dep) : VT × List Dep :=
@@ -249,34 +253,72 @@ def depElems (sp : Spec) : VT × List Dep :=
    | some (g, n, pid) => { v0 with cod := some (g, n), codpid := pid }
    | none => v0, r.1)
 
+/-- `processTyp`, passive -/
+def depStagePas (sp : Spec) (s : VT × List Dep) : Except Crash (VT × List Dep) :=
+  if sp.typ.pas then passivateDep s.1 s.2 else pure s
+
+/-- `processTyp_verb`, progressive: the root becomes « être », « en train », « de » and the infinitive follow it -/
+def depStageProg (sp : Spec) (s : VT × List Dep) : Except Crash (VT × List Dep) :=
+  if sp.typ.prog then do
+    let etreLex ← auxLex progAux
+    let orig := s.1.lex
+    pure ({ s.1.setLemma etreLex with isProg := true },
+          [{ rel := .post, t := .q enTrain }, { rel := .post, t := .q deStr }, { rel := .post, t := .v (mkV orig .b) }] ++ s.2)
+  else pure s
+
+/-- `processTyp_verb`, modality: the root becomes the modal verb, the infinitive follows it -/
+def depStageMod (sp : Spec) (s : VT × List Dep) : Except Crash (VT × List Dep) :=
+  match sp.typ.mod with
+  | some m => do
+    let orig := s.1.lex
+    let va : VT ← match modalLemma m with
+      | some ml => do
+        let lx ← auxLex ml
+        pure (s.1.setLemma lx)
+      | none => pure s.1
+    let newV : VT := { mkV orig .b with isProg := va.isProg }
+    pure ({ va with isMod := true, isProg := false }, { rel := .post, t := .v newV } :: s.2)
+  | none => pure s
+
+/-- `processTyp_verb`, negation: `neg2` on the root verb -/
+def depStageNeg (sp : Spec) (s : VT × List Dep) : VT × List Dep :=
+  match sp.typ.neg with
+  | some nv => ({ s.1 with neg2 := some nv.word2 }, s.2)
+  | none => s
+
 /-- `Dependent.processTyp` -/
 def depTyped (sp : Spec) : Except Crash (VT × List Dep × Str) := do
-  let (v1, deps1) := depElems sp
-  let (v2, deps2) ← if sp.typ.pas then passivateDep v1 deps1 else pure (v1, deps1)
-  -- processTyp_verb
-  let (v3, deps3) : VT × List Dep ← if sp.typ.prog then do
-      let etreLex ← auxLex progAux
-      let orig := v2.lex
-      pure ({ v2.setLemma etreLex with isProg := true },
-            [{ rel := .post, t := .q enTrain }, { rel := .post, t := .q deStr }, { rel := .post, t := .v (mkV orig .b) }] ++ deps2)
-    else pure (v2, deps2)
-  let (v4, deps4) : VT × List Dep ← match sp.typ.mod with
-    | some m => do
-      let orig := v3.lex
-      let va : VT ← match modalLemma m with
-        | some ml => do
-          let lx ← auxLex ml
-          pure (v3.setLemma lx)
-        | none => pure v3
-      let newV : VT := { mkV orig .b with isProg := va.isProg }
-      pure ({ va with isMod := true, isProg := false }, { rel := .post, t := .v newV } :: deps3)
-    | none => pure (v3, deps3)
-  let v5 : VT := match sp.typ.neg with
-    | some nv => { v4 with neg2 := some nv.word2 }
-    | none => v4
+  let s2 ← depStagePas sp (depElems sp)
+  let s3 ← depStageProg sp s2
+  let s4 ← depStageMod sp s3
+  let s5 := depStageNeg sp s4
   match sp.typ.int with
-  | some i => processIntDep i v5 deps4
-  | none => pure (v5, deps4, [])
+  | some i => processIntDep i s5.1 s5.2
+  | none => pure (s5.1, s5.2, [])
+
+/-- the first dependent (in realization order) whose terminal is a `Pro`: what the compound branch of a `lier` root
+    verb puts between the auxiliary and the participle -/
+def depNextPro (ordered : List Dep) : Option Tok :=
+  match firstIdx (fun (d : Dep) => d.t.isPro) ordered with
+  | some i => (match ordered[i]? with
+    | some d => (match d.t with | .pro p => some (proTok p) | _ => none)
+    | none => none)
+  | none => none
+
+/-- the dependents that are still realized once the compound branch of a `lier` root verb has consumed (`used`)
+    the first `Pro` dependent -/
+def depConsumed (used : Bool) (pres posts : List Dep) : List Dep × List Dep :=
+  if used then
+    match firstIdx (fun (d : Dep) => d.t.isPro) (pres ++ posts) with
+    | some i => if i < pres.length then (pres.eraseIdx i, posts) else (pres, posts.eraseIdx (i - pres.length))
+    | none => (pres, posts)
+  else (pres, posts)
+
+/-- morphoError turns the root terminal into a Q: `isReflexive` of the verbs realized AFTER it no longer finds a
+    dependent "with a terminal V" carrying `typ`, and doFormat no longer calls doPronounPlacement -/
+def rootIsVToks : List Tok → Bool
+  | [.qv _ _] => false
+  | _ => true
 
 /-- realization of the root: dependents with position "pre" first (stable), the terminal after the last of them, the
     others after; `doPronounPlacement` on the flat list of the WHOLE clause -/
@@ -284,27 +326,11 @@ def depReal (refl : Bool) (v6 : VT) (deps6 : List Dep) : Except Crash (List Tok)
   let pres := deps6.filter Dep.isPre
   let posts := deps6.filter (fun d => !d.isPre)
   -- the root verb: the compound branch of a `lier` verb takes the first dependent whose terminal is a Pro
-  let ordered := pres ++ posts
-  let proIdx := firstIdx (fun (d : Dep) => d.t.isPro) ordered
-  let nextPro : Option Tok := match proIdx with
-    | some i => (match ordered[i]? with
-      | some d => (match d.t with | .pro p => some (proTok p) | _ => none)
-      | none => none)
-    | none => none
-  let rv ← conjugate v6 refl nextPro
-  let (pres', posts') : List Dep × List Dep :=
-    if rv.2 then
-      match proIdx with
-      | some i => if i < pres.length then (pres.eraseIdx i, posts) else (pres, posts.eraseIdx (i - pres.length))
-      | none => (pres, posts)
-    else (pres, posts)
-  -- morphoError turns the root terminal into a Q: `isReflexive` of the verbs realized AFTER it no longer finds a
-  -- dependent "with a terminal V" carrying `typ`, and doFormat no longer calls doPronounPlacement
-  let rootIsV : Bool := match rv.1 with
-    | [.qv _ _] => false
-    | _ => true
-  let preToks ← pres'.mapM (Dep.toks refl)
-  let postToks ← posts'.mapM (Dep.toks (refl && rootIsV))
+  let rv ← conjugate v6 refl (depNextPro (pres ++ posts))
+  let pp := depConsumed rv.2 pres posts
+  let rootIsV : Bool := rootIsVToks rv.1
+  let preToks ← pp.1.mapM (Dep.toks refl)
+  let postToks ← pp.2.mapM (Dep.toks (refl && rootIsV))
   let all := removeEmpty (preToks.flatten ++ rv.1 ++ postToks.flatten)
   if rootIsV then placePronouns refl all else pure all
 
